@@ -5,6 +5,7 @@
 #include <bee2/core/rng.h>
 #include <bee2/core/err.h>
 #include <bee2/core/util.h>
+#include <bee2/core/tm.h>
 #include "c18.h"
 
 c18_prog_t c18_prog;
@@ -58,6 +59,7 @@ static void do_op(int tid, int k)
 	case 'I': r = mtAtomicIncr(&g_ctr); break;
 	case 'D': r = mtAtomicDecr(&g_ctr); break;
 	case 'E': r = utilOnExit(exit_fn) ? 1 : 0; break;
+	case 'F': r = (unsigned long)tmFreq(); break;        /* once-guarded calibration of tm.c (100 ms inside the initialiser) */
 	case 'W': r = mtAtomicCmpSwap(&g_ctr, (size_t)op->arg, (size_t)op->arg + 100); break;
 	}
 	c18_obs.ret[tid][k] = r;
@@ -100,6 +102,8 @@ void c18_post(void)
 	c18_obs.ctr_final = g_ctr;
 	if (c18_prog.kind == 'r' || c18_prog.kind == 'q')
 		c18_obs.valid_after = rngIsValid() ? 1 : 0;
+	if (c18_prog.kind == 't')
+		c18_obs.ctr_final = (unsigned long)tmFreq();
 }
 
 #include <stdlib.h>
@@ -111,6 +115,7 @@ int c18_parse(const char* s, c18_prog_t* p, int maxthr)
 	if (strncmp(s, "once:", 5) == 0) { p->kind = 'o'; p->nthr = atoi(s + 5); return p->nthr >= 1 && p->nthr <= maxthr; }
 	if (strncmp(s, "atomic", 6) == 0) p->kind = 'a', s += 6;
 	else if (strncmp(s, "rng", 3) == 0) p->kind = 'r', s += 3;
+	else if (strncmp(s, "tm", 2) == 0) p->kind = 't', s += 2;
 	else return 0;
 	if (*s == '*') rep = (int)strtol(s + 1, (char**)&s, 10);
 	if (*s++ != ':') return 0;
